@@ -406,6 +406,14 @@ func (r *beRun) oracleC08() {
 	out.NonTrivial = overlapSameKey
 	out.Outcome = fmt.Sprintf("ops=%d cycles=%d", len(r.recs), len(cycles))
 
+	if len(cycles) > 0 {
+		if out.Faults == nil {
+			out.Faults = map[string]int{}
+		}
+
+		out.Faults["janitor_cycle"] += len(cycles)
+	}
+
 	r.walkRule(cycles)
 
 	model := porcupine.NondeterministicModel{
